@@ -159,6 +159,10 @@ def dft(case, ctx):
     if case["mask"] is not None:
         sel = sel & pm.bbox_window(case["mask"])
     cm.compare_field("C02.dft", got, ref, tol, sel, what=f"in {shape} out {full} win {win}")
+    # the same propagation repeated (same shapes again) must give the same field
+    with lentil_call("C02.dft.repeat", "propagate_dft (repeated call)"):
+        again = lentil.propagate_dft(w, pixelscale=cm.as_ps(case["du"]), oversample=os_, **kw).field
+    cm.compare_field("C02.dft.repeat", again, ref, tol, sel, what="repeated call:")
     # intensity view agrees
     ri = (np.abs(ref) ** 2).astype(float) * sel
     itol = 4 * tol * (cm.max_abs(ref) + tol) + 1e-300
